@@ -398,6 +398,10 @@ pub struct RunOpts {
     /// Number of times the explorer may cancel a fetch task or drop a waiting caller.
     #[serde(default)]
     pub cancels: usize,
+    /// Calls made (each followed by quiescence, FIFO schedule) before the explored program starts:
+    /// puts the cache into a non-initial state, e.g. an entry that lives on disk only.
+    #[serde(default)]
+    pub prologue: Vec<HOp>,
 }
 
 #[derive(Debug, Clone)]
@@ -1364,6 +1368,11 @@ pub fn run_program(cfg: &HybCfg, prog: &[HOp], policy: BasePolicy, opts: &RunOpt
             trace,
         };
     }
+    for (i, op) in opts.prologue.iter().enumerate() {
+        w.issue(100_000 + i, op);
+        w.quiesce();
+    }
+    w.steps = 0;
     let horizon = if opts.horizon == 0 { 4000 } else { opts.horizon };
     let mut pc = 0usize;
     loop {
